@@ -144,6 +144,9 @@ func judgeWith(res *wprog.Result, mode pdf.ReaderErrorHandling, pw string) *fail
 	if m.Catalog == nil || m.Catalog.Pages != res.Pages {
 		return &failure{"meta-catalog", fmt.Sprintf("Catalog.Pages read %v, written %v", m.Catalog, res.Pages)}
 	}
+	if d := wprog.CompareMeta(&res.Catalog, &res.Info, m.Catalog, m.Info); d != "" {
+		return &failure{"meta-roundtrip:" + strings.SplitN(d, " read ", 2)[0], d}
+	}
 	return nil
 }
 
@@ -189,6 +192,14 @@ func Plans(thorough bool) []wprog.Plan {
 	}
 	long := wprog.Configs([]pdf.Version{pdf.V1_4, pdf.V1_7}, []bool{false}, tf, pwNone)
 	rep4 := wprog.Configs(rep, []bool{false}, []bool{true}, pwNone)
+	// Catalog and Info profiles (wprog/meta.go): every version, plain and encrypted, programs of <= 1 operation
+	for _, mp := range []int{1, 2} {
+		for _, v := range wprog.AllVersions {
+			for _, pw := range [][2]string{{"", ""}, {"u", "o"}} {
+				plans = append(plans, wprog.Plan{Cfg: wprog.Config{V: v, Seekable: mp == 1, User: pw[0], Owner: pw[1], Meta: mp}, MaxOps: 1, DevBound: 0})
+			}
+		}
+	}
 	if !thorough {
 		// the whole configuration matrix, one operation, one non-default choice
 		add(wprog.Configs(wprog.AllVersions, tf, tf, pwAll), 1, 1)
@@ -263,7 +274,7 @@ func Run(tier string) int {
 	if r.Thorough() {
 		modes = append(modes, pdf.ErrorHandlingRecover, pdf.ErrorHandlingReport)
 	}
-	RunPlans(r, plans, nil, func(res *wprog.Result, choices []int) {
+	RunPlans(r, plans, &wprog.Env{HandRefs: true, FailedCallsFirst: true}, func(res *wprog.Result, choices []int) {
 		cs := wprog.Case{Cfg: res.Cfg, MaxOps: 99, Choices: append([]int{}, choices...), Ops: res.Ops}
 		if res.NumOps > 0 {
 			r.DistinctS(res.Cfg.String() + strings.Join(res.Ops, ";"))
@@ -293,7 +304,7 @@ func Replay(path string) int {
 	}
 	r := ev.New("C02", "quick", "model_checking", time.Minute)
 	r.SetReplayMode()
-	res := wprog.Replay(cs, nil)
+	res := wprog.Replay(cs, &wprog.Env{HandRefs: true, FailedCallsFirst: true})
 	fmt.Println("program:", strings.Join(res.Ops, "; "), "accepted:", res.Accepted, res.Reject)
 	if res.Accepted {
 		for _, mode := range []pdf.ReaderErrorHandling{pdf.ErrorHandlingStop, pdf.ErrorHandlingRecover, pdf.ErrorHandlingReport} {
